@@ -11,19 +11,24 @@ from pool import err_kind, run_pool
 AREAS = ["Net"]
 LEVEL = "proof"
 ASSUMPTIONS = [
-    "Python dict/set as insertion-ordered association lists; kcore's `set.pop()` modelled as 'take the first "
-    "element' (the core numbers do not depend on the choice: kcore_peeling_correct is still open, tied per input "
-    "by comparing the mirror with the definitional core numbers)",
-    "low-link DFS and bucket peeling are mirrors without a for-all-inputs theorem: on every explored input the "
-    "mirror's output is compared with the definitions evaluated in Lean (components_count_correct, "
-    "kcoreDef_greatest) and with the implementation",
+    "Python dict/set as insertion-ordered association lists. kcore_decomposition's unspecified choices (which "
+    "element set.pop() returns, the order `for w in adj[v]` walks the set) are an oracle parameter of the mirror and "
+    "kcore_peeling_correct holds for every admissible oracle; the driver runs the first-element oracle",
+    "the low-link DFS mirror (articulation_points / bridges, mirroring the repaired code that walks the symmetrised "
+    "adjacency) has no for-all-inputs correctness theorem (lowlink_correct is the named missing piece, "
+    "lowlink_partial is proved): on every explored input its output, the implementation's output and the "
+    "definitions evaluated in Lean (cutVerticesDef / bridgesDef over the proved component count) are compared",
     "PageRank/Louvain theorems are about the Rat instantiation of the one model text; the Float instantiation "
     "(CPython 3.12 compensated sum modelled by pySumF) is tied by bit-equality of the returned scores and by "
-    "equality of the returned partition",
+    "equality of the returned partition; IEEE rounding itself is outside the theorems",
     "PageRank residual clause: a converged run (status OPTIMAL) must satisfy the damped equation with uniform "
-    "dangling redistribution within damping*n*tol + 1e-9 per node (the bound that follows from the L1 contraction "
-    "pagerank_contraction and the stopping rule max|new-old| < tol); after MAX_ITER only non-negativity and the sum "
-    "are required; max_iter >= 1 (max_iter=0 raises UnboundLocalError, outside the property's quantifier)",
+    "dangling redistribution within damping*n*tol + 1e-9 at every node (pagerank_residual_bound: the bound implied "
+    "by the stopping rule max|new-old| < tol and the L1 contraction); after MAX_ITER only non-negativity and the "
+    "sum are required; max_iter >= 1 (max_iter=0 raises UnboundLocalError, outside the property's quantifier)",
+    "modularity of an edgeless graph: the formula divides by m = 0; both the code (0.0) and modularityDef (Lean's "
+    "x/0 = 0) give 0",
+    "node labels are distinct non-negative integers (the theorems assume G.nodes.Nodup); `v < w` on labels is the "
+    "integer order",
 ]
 RULE = ("graphs with <= 9 nodes (<= 12 in every third thorough case): random sparse/dense, unions of paths, cycles, "
         "cliques and stars joined by bridges or shared vertices; every undirected edge listed from one side, the "
@@ -96,7 +101,7 @@ def _structure(rng, n):
 
 def gen_case(rng, big: bool):
     hi = 12 if big else 9
-    n = rng.choice([0, 1, 2, 3, 4, 5, 6, 7, 8, hi, hi]) if rng.random() < 0.9 else rng.randint(0, hi)
+    n = rng.choice([2, 3, 4, 4, 5, 5, 6, 6, 7, 7, 8, 8, hi, hi, hi]) if rng.random() < 0.93 else rng.randint(0, hi)
     style = rng.random()
     if style < 0.5:
         labels = list(range(n))
@@ -370,6 +375,9 @@ def judge(ctx, case, out, reply):
                 ctx.tdiv("louvain", {"case": case, "impl": l["comms"], "mirror": lv[0]})
             else:
                 ctx.count("r_trace:louvain_partition_equal")
+    ctx.cov["cert_checked_impl"] = sum(v for k, v in ctx.cov["histogram"].items() if k.startswith("cert:"))
+    ctx.cov["r_trace_agree"] = sum(v for k, v in ctx.cov["histogram"].items() if k.startswith("r_trace:"))
+    ctx.cov["missing_theorems"] = ["lowlink_correct (low-link DFS returns exactly cutVerticesDef / bridgesDef)"]
     ctx.count(f"components={min(ncomp, 4)}{'+' if ncomp >= 4 else ''}")
     ctx.count(f"cut_vertices={min(len(d_ap), 3)}")
     ctx.count(f"bridges={min(len(d_br), 3)}")
